@@ -167,7 +167,7 @@ def run(ck, F):
             ck.violation("R2", f"writer:{short}:{how.rsplit('::', 1)[-1]}", site,
                          f"{fn} writes the prefix table with `{how.rsplit('::', 1)[-1]}`: bindings that are not declarations of the document being read "
                          f"enter its prefix table, and (because a prefix already in the table is not re-bound) its own xmlns declarations can be ignored", fn=short)
-    ck.floor("R2", "writers of the prefix table", n_w, 3)
+    ck.floor("R2", "writers of the prefix table", n_w, 2)
     # ---- R3 / R4: by-name selections
     live = scans.api_reachable(F.lib)
     n_sel = 0
@@ -315,7 +315,7 @@ def run(ck, F):
         else:
             ck.violation("R4", f"{short}:kind-ignored", fb["span"],
                          f"{fname} selects by name (and namespace) only: a reference can bind to a component of another kind that carries the same name", fn=short)
-    ck.floor("R3", "by-name selection functions", n_sel, 5)
+    ck.floor("R3", "by-name selection functions", n_sel, 3)
     # builtin decision: wherever as_rust_type consults the builtin table (the match, the constant table, a helper holding either),
     # it does so only on the paths on which the prefix of the reference was found not to name a namespace of the document
     b = F.lib.body(C02.AS_RUST_TYPE)
